@@ -295,6 +295,8 @@ def run(chk):
                        "length-bound. non-trivial = glyph string differs from the plain cmap mapping")
     pr = chk.prove(extra_targets=["Corr/MorxC.vo"])
     broken = []
+    if chk.guards_failed:
+        broken += ["translator-guard:%s (%s)" % tuple(g) for g in chk.guards_failed]
     if not pr["ok"]:
         broken += ["proof:" + f for f in pr["failed"]]
     ok, binp, blog = C.cargo_build("release", hooks=True)
@@ -316,7 +318,7 @@ def run(chk):
         chk.add_eval(v["runs"], v["changed"])
     chk.note("oracles", ostats)
     # ---- model correspondence
-    dis, tot, kinds, generic, fonts = correspondence(chk, binp, 1500 if thorough else 400, 16, 25, 24 if thorough else 3)
+    dis, tot, kinds, generic, fonts = correspondence(chk, binp, 1500 if thorough else 340, 16, 25, 24 if thorough else 3)
     chk.add_eval(tot["cases"], tot["moved"])
     chk.note("model_correspondence", tot)
     chk.note("subtable_kinds_ran_changed", {k: {"ran": v[0], "changed_string": v[1]} for k, v in kinds.items()})
